@@ -291,6 +291,11 @@ func (s *Supervisor) RunCheck(secondsOverride int) int {
 		}
 		reported++
 		path, res, err := s.Minimise(o, key, shrinkBudget)
+		if uc, ok := err.(*errUnconfirmed); ok {
+			o.Unconfirmed = append(o.Unconfirmed, uc.Error())
+			fmt.Printf("unconfirmed observation (not an alarm): %s\n", uc.Error())
+			continue
+		}
 		if err != nil {
 			fmt.Printf("infrastructure trouble: failure %s of run %d could not be confirmed: %v\n", key, o.Failures[key].Index, err)
 			return 2
@@ -419,6 +424,8 @@ func (s *Supervisor) writeEvidence(o *Outcome, violations int, knownLines []stri
 		"worker_crashes":      o.WorkerCrash,
 		"shrink_evaluations":  o.ShrinkEvals,
 		"known_findings_seen": knownLines,
+		"confirmations":       o.Confirmations,
+		"unconfirmed_observations": o.Unconfirmed,
 		"repo_tree":           RepoTreeID(),
 		"exhaustive":          false,
 	}
